@@ -80,6 +80,45 @@ func c14Scenarios() []c14Scenario {
 		{{"AUTH", "pw"}, {"GET", "k0"}, {"AUTH", "bad"}},
 		{{"GET", "k1"}, {"AUTH", "pw"}, {"GET", "k1"}},
 	}, func(s *redis.Server) { s.SetRequirePass("pw") }))
+	// S12/S13: an application goroutine uses the configuration API of the running server
+	// (setters, getters, removal) while clients read and write the configuration -
+	// literally and through patterns - and connect
+	appCfg := func(name string, scripts [][][]string, app func(s *redis.Server)) c14Scenario {
+		return c14Scenario{Name: name, New: func() *sched.Run {
+			w := &mcWorld{Scripts: scripts}
+			w.Setup = func(m *mcWorld) {
+				d := srv.NewDouble()
+				catalogueDouble(d)
+				m.Srv = srv.NewServer(d)
+				m.Srv.SetConfig("maxclients", "10")
+			}
+			w.Background = func(m *mcWorld) { app(m.Srv) }
+			return &sched.Run{Body: w.body, Verdict: c14Verdict(func() string { return repliesString(w.Replies) })}
+		}}
+	}
+	out = append(out, appCfg("S12-app-config-vs-config-commands", [][][]string{
+		{{"CONFIG", "GET", "*"}, {"CONFIG", "GET", "max*"}, {"CONFIG", "GET", "x?z"}, {"CONFIG", "GET", "[xm]*"}},
+		{{"CONFIG", "SET", "xyz", "1"}, {"CONFIG", "GET", "xyz"}, {"CONFIG", "GET", "maxclients", "port"}},
+	}, func(s *redis.Server) {
+		s.SetConfig("xyz", "2")
+		s.AppendConfig("xyz", "3")
+		s.ConfigString("xyz")
+		s.ConfigInteger("maxclients")
+		s.RemoveConfig("xyz")
+		s.SetConfig("maxmemory", "0")
+	}))
+	out = append(out, appCfg("S13-app-server-config-vs-clients", [][][]string{
+		{{"PING"}, {"CONFIG", "GET", "requirepass"}, {"CONFIG", "GET", "*pass"}},
+		{{"AUTH", "pw"}, {"CONFIG", "GET", "port", "tls-port"}, {"GET", "k"}},
+	}, func(s *redis.Server) {
+		s.SetRequirePass("pw")
+		s.ConfigRequirePass()
+		s.ConfigPort()
+		s.IsTLSPortEnabled()
+		s.SetTLSPort(0)
+		s.RemoveRequirePass()
+		s.SetRequirePass("pw2")
+	}))
 	// S3: connect / disconnect of two clients while the harness enumerates the registry
 	out = append(out, c14Scenario{Name: "S3-registry-queries", New: func() *sched.Run {
 		var s *redis.Server
@@ -398,7 +437,7 @@ func init() {
 	fw.Register(&fw.Prop{
 		ID:    "C14",
 		Level: "model_checking",
-		Rule:  "13 scenarios on the real Start/accept loop/connection goroutines over the in-memory network: two clients doing CONFIG SET/GET; a client connecting while another CONFIG SETs requirepass; two clients running a command of every executor family (and AUTH sequences) against a race-free double; two clients connecting/disconnecting while the harness enumerates the registry (Conns, ConnByUUID, connection accessors); Stop concurrent with clients mid-command and connecting; Restart with an idle client; Restart after SetRequirePass; two TLS clients (real handshake) doing CONFIG SET while Stop runs; two application goroutines enumerating the registry at once right after a connect, with a further client connecting or with Stop running; two connected clients sending AUTH (one- and two-argument) and SELECT while Stop / Restart closes their connections. Every schedule within deviation bound 2 (thorough 3) is executed with every field access of the instrumented framework feeding a vector-clock happens-before oracle (edges: go, mutex/RWMutex release-acquire, sync.Map per key, connection write->read, dial->accept, close->EOF/error; scheduler hand-offs are NOT edges); locations found racy become scheduling points and the exploration is repeated until the racy set is stable. A race is an unordered pair of access sites on one location with at least one write.",
+		Rule:  "15 scenarios on the real Start/accept loop/connection goroutines over the in-memory network: two clients doing CONFIG SET/GET; a client connecting while another CONFIG SETs requirepass; two clients running a command of every executor family (and AUTH sequences) against a race-free double; two clients connecting/disconnecting while the harness enumerates the registry (Conns, ConnByUUID, connection accessors); Stop concurrent with clients mid-command and connecting; Restart with an idle client; Restart after SetRequirePass; two TLS clients (real handshake) doing CONFIG SET while Stop runs; two application goroutines enumerating the registry at once right after a connect, with a further client connecting or with Stop running; two connected clients sending AUTH (one- and two-argument) and SELECT while Stop / Restart closes their connections; an application goroutine calling the configuration API (SetConfig, AppendConfig, RemoveConfig, ConfigString, SetRequirePass, RemoveRequirePass, SetTLSPort, ...) while two clients read the configuration literally and through patterns, write it, connect and authenticate. Every schedule within deviation bound 2 (thorough 3) is executed with every field access of the instrumented framework feeding a vector-clock happens-before oracle (edges: go, mutex/RWMutex release-acquire, sync.Map per key, connection write->read, dial->accept, close->EOF/error; scheduler hand-offs are NOT edges); locations found racy become scheduling points and the exploration is repeated until the racy set is stable. A race is an unordered pair of access sites on one location with at least one write.",
 		Assumptions: []string{
 			"setters documented as pre-start configuration (SetTracer, SetCommandHandler, RegisterExexutor, SetPort) are called before Start only; SetRequirePass before Restart is called by the lifecycle thread between Stop-free calls as the repository's own tests do",
 			"the race-detector stress with 2..32 clients is replaced by exhaustive small scenarios: a race is a pair of accesses, two contending threads exhibit it",
